@@ -45,4 +45,14 @@ theorem startStateSync_order : Facts.c14_startStateSync_order =
     ["Sync", "SaveSeenCommit", "Bootstrap", "SwitchToFastSync", "SwitchToConsensus"] := by decide
 theorem seen_commit_synced : Facts.c14_seen_commit_synced = true := by decide
 
+/-- `validateMsg` (model: `StateSync.validateMsg`) -/
+theorem validate_missing_with_contents :
+    Facts.c14_validate_missing_with_contents = "msg.Missing && len(msg.Chunk) > 0" := by decide
+theorem validate_nil_chunk : Facts.c14_validate_nil_chunk = "!msg.Missing && msg.Chunk == nil" := by decide
+theorem validate_no_hash : Facts.c14_validate_no_hash = "len(msg.Hash) == 0" := by decide
+theorem validate_no_chunks : Facts.c14_validate_no_chunks = "msg.Chunks == 0" := by decide
+
+/-- `SyncAny` rejects the snapshot on an error wrapping `context.DeadlineExceeded` (model: `.deadline`) -/
+theorem syncany_deadline_branch : Facts.c14_syncany_deadline_branch = true := by decide
+
 end Tmv.Expect.C14
